@@ -301,6 +301,19 @@ func taintFrom(root *ssa.Function, sources ...ssa.Value) *taintSet {
 				if x.Op == token.MUL && ts.cells[cellOf(x.X, bind)] {
 					mark(x)
 				}
+				if x.Op == token.MUL {
+					// element / field of a tainted slice or struct value
+					switch a := x.X.(type) {
+					case *ssa.IndexAddr:
+						if ts.vals[a.X] {
+							mark(x)
+						}
+					case *ssa.FieldAddr:
+						if ts.vals[a.X] {
+							mark(x)
+						}
+					}
+				}
 				if x.Op != token.MUL && ts.vals[x.X] {
 					mark(x)
 				}
